@@ -99,28 +99,64 @@ def impl_obs(o):
 
 
 # ------------------------------------------------------------------------------ oracles
-class PyRegexOracle:
-    """Python `re` on the literals extracted from the source.  The literals carry (?i-u):
-    ASCII-only case folding, rendered as re.IGNORECASE | re.ASCII (Python's Unicode
-    IGNORECASE would also fold U+017F, U+212A, U+0130, U+0131); a non-ASCII character can
-    then match nothing in these patterns.  `$` (end of text in Rust) is rendered as \\Z."""
+EXPECTED_SHAPE = re.compile(r"\(\?i-u\)\^ \*[A-Z ]+( '\??\([^()]*\)'\??)? \*;\? \*\$")
 
-    def __init__(self, literals):
-        self.rx = []
-        for lit in literals:
-            if not (lit.startswith("(?i-u)") and lit.endswith("$")):
-                raise ValueError("unexpected regex shape: %r" % lit)
-            self.rx.append(re.compile(lit[6:-1] + r"\Z", re.I | re.A))
+
+def rust_regex_to_python(lit):
+    """Generic rendering of a Rust regex literal for Python `re` (used for whatever literals the
+    source contains NOW, expected shape or not): leading flag group (?on-off) -> re flags
+    (i -> IGNORECASE, -u -> ASCII, m/s/x as they are); `$` (end of text in Rust without m) -> \\Z.
+    Rust's is_match()/captures() SEARCH, so an unanchored literal matches anywhere."""
+    flags, body = 0, lit
+    m = re.match(r"\(\?([a-zA-Z]*)(?:-([a-zA-Z]*))?\)", body)
+    if m:
+        on, off = m.group(1), m.group(2) or ""
+        body = body[m.end():]
+        if "i" in on:
+            flags |= re.I
+        if "u" in off:
+            flags |= re.A
+        if "s" in on:
+            flags |= re.S
+        if "x" in on:
+            flags |= re.X
+        if "m" in on:
+            flags |= re.M
+    if not flags & re.M:
+        body = re.sub(r"(?<!\\)\$", r"\\Z", body)
+    return re.compile(body, flags)
+
+
+class PyRegexOracle:
+    """Python `re` on regex literals (the ones extracted from the source, or the pinned,
+    documented ones).  The expected literals carry (?i-u): ASCII-only case folding, rendered
+    as re.IGNORECASE | re.ASCII (Python's Unicode IGNORECASE would also fold U+017F, U+212A,
+    U+0130, U+0131); a non-ASCII character can then match nothing in these patterns.
+    Never raises: a literal of unexpected shape is compiled generically and listed in
+    `self.odd`; one that cannot be compiled at all falls back to the pinned literal of the same
+    index and is listed in `self.uncompilable`."""
+
+    def __init__(self, literals, names=None):
+        self.rx, self.odd, self.uncompilable = [], [], []
+        self.names = list(names) if names and len(names) == len(literals) else (CMDS[:len(literals)] if len(literals) <= 7 else ["Regex%d" % i for i in range(len(literals))])
+        for i, lit in enumerate(literals):
+            if not EXPECTED_SHAPE.fullmatch(lit):
+                self.odd.append((i, lit))
+            try:
+                self.rx.append(rust_regex_to_python(lit))
+            except Exception as ex:      # noqa: BLE001 - any re.error / recursion problem
+                self.uncompilable.append((i, lit, str(ex)))
+                self.rx.append(rust_regex_to_python(T.PINNED_REGEXES[i]) if i < len(T.PINNED_REGEXES) else re.compile(r"(?!)"))
 
     def classify(self, q: bytes):
         s = q.decode("utf-8", "replace")
-        hits = [(i, m) for i, m in ((i, r.match(s)) for i, r in enumerate(self.rx)) if m]
+        hits = [(i, m) for i, m in ((i, r.search(s)) for i, r in enumerate(self.rx)) if m]
         if len(hits) != 1:
             return None
         i, m = hits[0]
         if m.re.groups:
-            return (CMDS[i], m.group(1).encode())
-        return (CMDS[i], b"")
+            return (self.names[i], (m.group(1) or "").encode())
+        return (self.names[i], b"")
 
 
 def model_obs(v):
@@ -536,7 +572,21 @@ def check(run):
         return
     binp = bins["cmdlang"]
     doc_oracle = PyRegexOracle(T.PINNED_REGEXES)                         # the documented language
-    src_oracle = PyRegexOracle(literals_now) if literals_now and len(literals_now) == 7 else doc_oracle
+    src_oracle = PyRegexOracle(literals_now, _INFO.get("cmd_order")) if literals_now else doc_oracle   # the literals as found
+    tie_name = None
+    if not tr_ok:
+        tie_name = "translator shape (translate/c13_consts.py: %s)" % tr_msg
+    elif not tie_ok:
+        if literals_now != T.PINNED_REGEXES:
+            changed = [i for i, (a, b) in enumerate(itertools.zip_longest(literals_now, T.PINNED_REGEXES)) if a != b]
+            tie_name = "Cmd/Tie.v c13_tie_regexes (render_form forms = the regex literals of the source): literal(s) #%s changed, now %s%s" % (
+                changed, [literals_now[i] for i in changed if i < len(literals_now)],
+                "; unexpected shape: %s" % [l for _, l in src_oracle.odd] if src_oracle.odd else "")
+        elif _INFO.get("cmd_order") != CMDS[:7] or not _INFO.get("exactly_one_rule"):
+            tie_name = "Cmd/Tie.v c13_tie_index_map (RegexSet index -> Command, `matches.len() != 1` rule)"
+        else:
+            tie_name = "Cmd/Tie.v c13_tie_replies (reply functions and texts of handle_custom_protocol)"
+    run.cov["t1"]["literals_of_unexpected_shape"] = [l for _, l in src_oracle.odd]
 
     evals, distinct, samples = 0, set(), []
     dist = {}
@@ -675,23 +725,23 @@ def check(run):
     run.cov["accepted_as_command"] = accepted
 
     # 5. decide on broken proof / tie
-    if not run.violations and not run.broken:
-        if not tr_ok or not tie_ok:
-            name = "translator shape (translate/c13_consts.py)" if not tr_ok else "Cmd/Tie.v (model literals = source literals)"
-            w = search_witness(binp, doc_oracle, allq, impl)
-            if w:
-                run.violation("counterexample", "%s no longer checks and the implementation deviates from the documented command language on %r" % (name, w["text"]),
-                              {"theorem": name, "kind_of_input": "classify", "input": w, "log": (tie_log or "")[-2500:]})
-            else:
-                run.violation("tie-broken", "%s no longer checks; no query on which the implementation deviates from the documented language was found" % name,
-                              {"theorem": name, "log": (tie_log or "")[-2500:], "extracted": _INFO}, found_input=False)
-        elif not proof_ok:
-            w = search_witness(binp, doc_oracle, allq, impl)
-            if w:
-                run.violation("counterexample", "Cmd/Props.v no longer checks and the implementation deviates from the documented language on %r" % w["text"],
-                              {"theorem": "Cmd/Props.v", "kind_of_input": "classify", "input": w, "coq_log": log[-2500:]})
-            else:
-                run.violation("proof-broken", "Cmd/Props.v no longer checks; no failing query found in the search", {"theorem": "Cmd/Props.v", "coq_log": log[-2500:]}, found_input=False)
+    if tie_name and not run.broken:
+        # the tie is broken whatever else was found: name the theorem, and say whether the implementation
+        # itself deviates from the documented language on a concrete query (searched over everything generated)
+        w = search_witness(binp, doc_oracle, allq, impl)
+        if w:
+            run.violation("counterexample", "%s no longer checks and the implementation deviates from the documented command language on %r: implementation %s, documented %s" % (tie_name, w["text"], w["impl"], w["documented"]),
+                          {"theorem": tie_name, "kind_of_input": "classify", "input": w, "log": (tie_log or "")[-2500:]})
+        elif not any(found for _, _, found in run.violations):
+            run.violation("tie-broken", "%s no longer checks; no query on which the implementation deviates from the documented language was found" % tie_name,
+                          {"theorem": tie_name, "log": (tie_log or "")[-2500:], "extracted": _INFO}, found_input=False)
+    elif not proof_ok and not run.violations and not run.broken:
+        w = search_witness(binp, doc_oracle, allq, impl)
+        if w:
+            run.violation("counterexample", "Cmd/Props.v no longer checks and the implementation deviates from the documented language on %r" % w["text"],
+                          {"theorem": "Cmd/Props.v", "kind_of_input": "classify", "input": w, "coq_log": log[-2500:]})
+        else:
+            run.violation("proof-broken", "Cmd/Props.v no longer checks; no failing query found in the search", {"theorem": "Cmd/Props.v", "coq_log": log[-2500:]}, found_input=False)
     if not quick and proof_ok:
         vlib.coqchk(run, ["PV.Cmd.Props"])
 
